@@ -305,14 +305,20 @@ def unit_apply(n, tier=None, seed=None):
                 (lambda I, fv, args, kwargs: log.append(fv.attrs["identifier"]))
         apret = sx.Obj(sx.ClassVal("Indentation", [sx.OBJECT], {}))
         apret.cls.ns["reset_data"] = sx.Builtin("reset_data", lambda I, self: log.append("<reset_data>"))
-        return f, [], dict(apret=apret, identifiers=ids, options=sx.SDict(), ret_details=False)
+        kw = dict(apret=apret, identifiers=ids, ret_details=False)
+        # options are optional in the signature: with and without them
+        st["options_given"] = I.fork(z3.Bool("options_given"))
+        if st["options_given"]:
+            kw["options"] = sx.SDict()
+        return f, [], kw
 
     def post(S, out):
         I = S.I
         conc = _concrete(I, st["ids"])
         codes = _codes(I, st["ids"])
         case = {"identifiers": [c if c is not None else ("<unknown>" if k == -1 else "<unexamined>")
-                                for c, k in zip(conc, codes)], "calls": list(st["log"])}
+                                for c, k in zip(conc, codes)], "calls": list(st["log"]),
+                "options_given": st["options_given"]}
         log = st["log"]
         S.ensure("starts_from_raw_data", bool(log) and log[0] == "<reset_data>" and log.count("<reset_data>") == 1,
                  case=case)
@@ -324,6 +330,10 @@ def unit_apply(n, tier=None, seed=None):
             S.ensure("steps_run_in_given_order", log[1:] == conc, case=case)
         else:
             cls = out.value.cls.name
+            if cls not in ("KeyError", "ValueError"):
+                S.fail("accepted_iff_requirements_met", f"raises {cls}", case=case,
+                       witness="options_omitted" if not st["options_given"] else cls)
+                return
             # find the first offending position
             k = len(log) - 1           # steps executed before the rejection
             examined = conc[:k + 1]
@@ -353,7 +363,10 @@ def replay_apply(ob):
     data = pathlib.Path(os.environ.get("VF_REPO", "/repo")) / "tests" / "data" / "fmt-jpk-fd_spot3-0192.jpk-force"
     idnt = nanite.IndentationGroup(data)[0]
     try:
-        preproc.apply(idnt, list(ids))
+        if (ob.model or {}).get("options_given", True):
+            preproc.apply(idnt, list(ids), {})
+        else:
+            preproc.apply(idnt, list(ids))
         got = "accepted"
     except KeyError:
         got = "KeyError"
